@@ -46,6 +46,7 @@ fn main() {
         "c17" => c17::run(rest),
         "graph" => graph::cases(rest),
         "ioops" => ioops::cases(rest),
+        "ioops-huge" => ioops::huge(rest),
         "varint-cases" => varint::cases(rest),
         "varint-sweep" => varint::sweep(rest),
         other => {
